@@ -214,55 +214,91 @@ def interleavings (fuel : Nat) (ls : List (List Nat)) : List (List Nat) :=
 /-- The loop/pragma skeleton of a level-scheduled kernel, as normalised source text: `(nesting depth, line)`.
 `tools/sync_skeleton.py` extracts one from each of `parallel_sweep` and `sptr_solve`. -/
 structure Skeleton where
-  /-- the parallel region of `sweep`/`solve`: pragmas, loop headers and the store to `x[i]` -/
+  /-- `sweep`/`solve`: the level count, the parallel region with the team stride, the level loop, the loop over the
+  virtual threads `tid = thread_id(), tid + team, …`, the task selection, the row loop, the store to `x[i]`, the barrier -/
   run : List (Nat × String)
   /-- member initialiser deciding the serial fallback -/
   serialPred : String
   /-- where `nthreads` comes from -/
   nthreads : String
-  /-- step 3 of the constructor: the parallel region cutting every level into per-thread chunks -/
+  /-- step 3 of the constructor: the parallel region cutting every level into per-(virtual-)thread chunks -/
   chunking : List (Nat × String)
+  /-- step 4 of the constructor: the parallel region making the thread-local copies (team loop, task loop) -/
+  fill : List (Nat × String)
+  /-- body of `team_size()`: the stride of the `tid` loops is the size of the team that executes the region -/
+  teamSize : String
+  /-- body of `thread_id()`: the first virtual thread of a thread is its number in that team -/
+  threadId : String
   deriving DecidableEq, Repr
 
 def barrierLine : String := "#pragma omp barrier"
 
-/-- position of the barrier: inside the task loop, after the row loop (at the depth of the row loop header) -/
+/-- position of the barrier: inside the level loop, after the loop over the virtual threads of the executing thread
+(at the depth of that loop's header); the task a virtual thread runs in level `lev` is `tasks[tid][lev]` and the
+virtual threads of a thread are `thread_id(), thread_id() + team, …` below `nthreads`.  (Before
+repo_patches/fix_level_schedule_team_size.patch the region was `tid = thread_id(); for (t : tasks[tid]) { rows;
+barrier }`, which is the same set of executions only if the team has exactly `nthreads` threads.) -/
 def Skeleton.levelBarrier (sk : Skeleton) : Bool :=
   match sk.run with
-  | [(0, "#pragma omp parallel"), (1, _), (2, _), (3, _), (2, b)] => b == barrierLine
+  | [(0, _), (0, "#pragma omp parallel"), (1, "const int team=team_size();"), (1, "for(ptrdiff_t lev=0;lev<nlev;++lev)"),
+     (2, "for(int tid=thread_id();tid<nthreads;tid+=team)"), (3, "const task&t=tasks[tid][lev];"), (3, _), (4, _), (2, b)] =>
+    b == barrierLine
   | _ => false
 
 /-- canonical text (`tools/sync_skeleton.py: norm`): blanks survive only between two identifier characters -/
 def expectedChunking : List (Nat × String) :=
   [(0, "#pragma omp parallel"),
+   (1, "const int team=team_size();"),
+   (1, "for(int tid=thread_id();tid<nthreads;tid+=team)"),
+   (2, "for(ptrdiff_t lev=0;lev<nlev;++lev)"),
+   (3, "ptrdiff_t lev_size=start[lev+1]-start[lev];"),
+   (3, "ptrdiff_t chunk_size=(lev_size+nthreads-1)/nthreads;"),
+   (3, "ptrdiff_t beg=std::min(tid*chunk_size,lev_size);"),
+   (3, "ptrdiff_t end=std::min(beg+chunk_size,lev_size);"),
+   (3, "beg+=start[lev];"),
+   (3, "end+=start[lev];"),
+   (3, "tasks[tid].push_back(task(beg,end));")]
+
+def expectedFill : List (Nat × String) :=
+  [(0, "#pragma omp parallel"),
+   (1, "const int team=team_size();"),
+   (1, "for(int tid=thread_id();tid<nthreads;tid+=team)"),
+   (2, "ptr[tid].push_back(0);"),
+   (2, "for(task&t:tasks[tid])"),
+   (3, "t.beg=loc_beg;"),
+   (3, "t.end=loc_end;")]
+
+def expectedTeamSize : String := "#ifdef _OPENMP return omp_get_num_threads();#else return 1;#endif"
+def expectedThreadId : String := "#ifdef _OPENMP return omp_get_thread_num();#else return 0;#endif"
+
+def expectedRun (store : String) : List (Nat × String) :=
+  [(0, "const ptrdiff_t nlev=tasks.empty()?0:tasks[0].size();"),
+   (0, "#pragma omp parallel"),
+   (1, "const int team=team_size();"),
    (1, "for(ptrdiff_t lev=0;lev<nlev;++lev)"),
-   (2, "ptrdiff_t lev_size=start[lev+1]-start[lev];"),
-   (2, "ptrdiff_t chunk_size=(lev_size+nthreads-1)/nthreads;"),
-   (2, "ptrdiff_t beg=std::min(tid*chunk_size,lev_size);"),
-   (2, "ptrdiff_t end=std::min(beg+chunk_size,lev_size);"),
-   (2, "beg+=start[lev];"),
-   (2, "end+=start[lev];"),
-   (2, "tasks[tid].push_back(task(beg,end));")]
+   (2, "for(int tid=thread_id();tid<nthreads;tid+=team)"),
+   (3, "const task&t=tasks[tid][lev];"),
+   (3, "for(ptrdiff_t r=t.beg;r<t.end;++r)"),
+   (4, store),
+   (2, "#pragma omp barrier")]
 
 def gsExpectedSkeleton : Skeleton where
-  run := [(0, "#pragma omp parallel"),
-          (1, "for(const task&t:tasks[tid])"),
-          (2, "for(ptrdiff_t r=t.beg;r<t.end;++r)"),
-          (3, "x[i]=math::inverse(D)*X;"),
-          (2, "#pragma omp barrier")]
+  run := expectedRun "x[i]=math::inverse(D)*X;"
   serialPred := "is_serial(prm.serial||num_threads()<4)"
   nthreads := "nthreads(num_threads())"
   chunking := expectedChunking
+  fill := expectedFill
+  teamSize := expectedTeamSize
+  threadId := expectedThreadId
 
 def iluExpectedSkeleton : Skeleton where
-  run := [(0, "#pragma omp parallel"),
-          (1, "for(const task&t:tasks[tid])"),
-          (2, "for(ptrdiff_t r=t.beg;r<t.end;++r)"),
-          (3, "if(lower)x[i]-=X;else x[i]=D[tid][r]*(x[i]-X);"),
-          (2, "#pragma omp barrier")]
+  run := expectedRun "if(lower)x[i]-=X;else x[i]=D[tid][r]*(x[i]-X);"
   serialPred := "serial(num_threads()<4)"
   nthreads := "nthreads(num_threads())"
   chunking := expectedChunking
+  fill := expectedFill
+  teamSize := expectedTeamSize
+  threadId := expectedThreadId
 
 /-- with the barrier: one interleaving per level, the levels one after the other -/
 inductive LevelwiseExec (tk : List (List (List Nat))) : List Nat → List Nat → Prop
